@@ -15,7 +15,8 @@ TRUSTED = [
     "tied to the code by the differential run of this check (exact inputs: f32 arithmetic is exact, every implementation "
     "distance is compared as its f32 bit pattern with the model's exact integer)",
     "std::collections::BinaryHeap is modelled by Vec/Hnsw.v bpush/bpop (transcribed from the std source, re-validated "
-    "against the real heap by the 'bheap' cases of every run); the theorems only assume that a heap keeps its contents (heap_ok)",
+    "against the real heap by the 'bheap' cases of every run); heap_ok is PROVED for the transcription (std_heap_keeps_contents)",
+    "std's stable sort on <= 20 elements is the insertion sort of Vec/SmallSort.v (transcribed; used only for the NaN cases)",
     "harness/src/bin/c18.rs (generators, oracle, printing of observations as Coq terms), lib/gv.py",
     "IEEE rounding of the f32 kernels is runtime, not modelled (support: relative-error comparison on float inputs)",
 ]
@@ -72,14 +73,16 @@ def _run(tier, seed):
         "QuantizedHnswIndex (none/scalar/binary, rescoring on/off, factor 1..4, k up to usize::MAX) against a twin HnswIndex with the "
         "same seed replayed in the model + the wrapper model; VectorScanOperator / VectorJoinOperator (brute force, static query, "
         "HNSW, distance filter, chunk capacities 1..6 and default, left chunks 1..3) against the per-row searches and the loop model; "
-        "scalar quantiser on an exact grid; distinct = distinct (kind,input)")
+        "scalar quantiser (codes, dequantize, asymmetric and u8 distances) on an exact grid, binary quantiser (packed words, hamming, "
+        "hamming_simd; dims 1..200 around the 64-bit word boundary), product quantiser with explicit integer centroids (codes with ties, "
+        "distance table, ADC distance, reconstruction; K up to 256); distinct = distinct (kind,input)")
     hs = [c for c in cases if c["k"] == "hnsw-history"]
     chk.coverage["samples"] = [{"kind": c["k"], "input": c["in"][:300], "impl": c["impl"][:200]} for c in (hs[1:4] + cases[20:23])]
     chk.coverage["trusted_base"] = TRUSTED
     chk.assumptions = [
         "ext_ok: OrderedFloat's order is a total preorder and std's BinaryHeap keeps exactly what was pushed and not popped "
-        "(premise of search_sound/search_live/removed_never_returned/search_complete; proved for the list heaps, "
-        "validated for the transcribed BinaryHeap on every run)",
+        "(premise of search_sound/search_live/removed_never_returned/search_complete; proved for the list heaps and for the "
+        "transcribed BinaryHeap: zext_ok)",
         "the level of an inserted node (RNG) and the key picked by remove (HashMap iteration order) are inputs of the model",
         "IEEE rounding is runtime: on inexact inputs the kernels are only compared within a relative error bound (support)",
         "search_complete carries layer-0 reachability as a hypothesis, as the property does (k results for k REACHABLE vectors); that "
